@@ -20,18 +20,21 @@ func init() {
 			"variables, and compares the text with an independent Go renderer written from the directive definitions (own English " +
 			"speller, Roman writer, math/big digits + own sign/grouping/padding, own argument-pointer and block interpreter); ~A/~S/~@C " +
 			"are compared with princ/prin1 of the same object written to a string stream (metamorphic). A failing case is reduced (directives, " +
-			"parameters, modifiers, arguments removed while the same kind of failure persists) and the signature names the reduced " +
-			"shape. A case is non-trivial when the reference defines its text and the control has a prefix parameter, a modifier, a " +
+			"parameters, modifiers, arguments removed while exactly the same kind of failure persists) and the signature names the reduced " +
+			"shape, or the syntactic trigger when a causal re-run (same case with a space inserted / parameter removed) passes. A case is non-trivial when the reference defines its text and the control has a prefix parameter, a modifier, a " +
 			"block directive or at least two directives, or a bignum argument, or a ~R argument beyond +-20",
 		Assumptions: []string{
 			"princ / prin1 (written to a string stream) are the printer oracle for ~A ~S ~@C (the printer itself is property C03)",
 			"only the directives named in the statement are rendered (~A ~S ~D ~B ~O ~X ~R ~C ~% ~& ~~ ~T ~* ~? ~( ~[ ~{ ~P ~;); " +
 				"~^ ~$ ~E ~F ~G ~W ~< ~/ ~= ~| ~I ~newline are outside the statement",
 			"calls whose text the definitions do not determine (wrong argument type, too few arguments, pointer moved outside the " +
-				"arguments, colinc 0, English beyond 10^66, Roman outside 1..3999) are executed but only the three destinations are compared",
+				"arguments, an iteration whose body consumes nothing, colinc 0, English beyond 10^66, Roman outside 1..3999, a bignum or " +
+				"negative-parameter ~[ index, a word starting with a digit under ~:( ~@() are counted as undefined-by-the-definitions and " +
+				"slip is not run on them",
 			"accepted readings (S2): ~& at the very start of the output may or may not emit a newline; ~colnum,colincT may follow CL or " +
 				"slip's documented 'column number x column width'; ~T with the cursor exactly at colnum may output nothing; bare ~@* may go " +
-				"to 0 or 1; digits above 9 in either case; 'twenty one' or 'twenty-one'; 'negative' or 'minus'",
+				"to 0 or 1; digits above 9 in either case; 'twenty one' or 'twenty-one'; 'negative' or 'minus'; ~:C of a non-graphic " +
+				"character other than Space is the name prin1 prints after #\\",
 		},
 		Enumerate: enumerate,
 		Exec:      exec,
@@ -51,19 +54,19 @@ func bound(tier string) string {
 	n := 0
 	enumerate(tier, func(string) { n++ })
 	if tier == engine.Thorough {
-		return fmt.Sprintf("%d cases: ", n) + ("~D ~B ~O ~X x mincol{-,0,1,5,12,27,40} x padchar{-,'0,'.} x commachar{-,'_} x interval{-,1,2,3,4,7} x 4 modifier sets x 29 integers "+
-			"(0 .. +-10^30, both sides of 2^63); ~nR for 9 radixes x mincol x padchar x commachar x interval x modifiers; v/# parameter forms; every printable ASCII "+
-			"character as a quoted parameter; ~A ~S x mincol x colinc x minpad x padchar x modifiers x 21 objects; ~R and ~:R for every n in -20000..400000 and 15 "+
-			"multiples of every 10^k below 10^66; ~@R ~:@R for every n in 1..4999; ~C x 15 characters x 4 forms; ~% ~& ~~ counts 0..3 after 5 prefixes; ~T "+
-			"absolute/relative x colnum x colinc x 5 prefixes; ~* (21 forms) at 4 positions; ~P; ~[ (index -1..4, ~:;, #, v, ~:[, ~@[, nested); ~{ (4 forms x max "+
-			"count x lists 0..4 x nested lists, ~:}); ~( (4 forms, nested); ~? ~@?; all compositions of <= 4 items over a 20-item menu; 16 block wrappers around "+
+		return fmt.Sprintf("%d cases: ", n) + ("~D ~B ~O ~X x mincol{-,0,1,5,12,27,40} x padchar{-,'0,'.} x commachar{-,'_} x interval{-,1,2,3,4,7} x 4 modifier sets x 29 integers " +
+			"(0 .. +-10^30, both sides of 2^63); ~nR for 9 radixes x mincol x padchar x commachar x interval x modifiers; v/# parameter forms; every printable ASCII " +
+			"character as a quoted parameter; ~A ~S x mincol x colinc x minpad x padchar x modifiers x 22 objects; ~R and ~:R for every n in -20000..400000 and 15 " +
+			"multiples of every 10^k below 10^66; ~@R ~:@R for every n in 1..4999; ~C x 15 characters x 4 forms; ~% ~& ~~ counts 0..3 after 5 prefixes; ~T " +
+			"absolute/relative x colnum x colinc x 5 prefixes; ~* (21 forms) at 4 positions; ~P; ~[ (index -1..4, ~:;, #, v, ~:[, ~@[, nested); ~{ (4 forms x max " +
+			"count x lists 0..4 x nested lists, ~:}); ~( (4 forms, nested); ~? ~@?; all compositions of <= 4 items over a 20-item menu; 16 block wrappers around " +
 			"every 1 and 2 items and around every wrapped item (blocks inside blocks)")
 	}
-	return fmt.Sprintf("%d cases: ", n) + ("~D ~B ~O ~X x mincol{-,0,5,12} x padchar{-,'0,'.} x commachar{-,'_} x interval{-,1,3,4} x 4 modifier sets x 15 integers (0 .. +-10^20, "+
-		"both sides of 2^63); ~nR for 6 radixes x mincol x padchar x commachar x interval x modifiers; v/# parameter forms; every printable ASCII character as a "+
-		"quoted parameter; ~A ~S x mincol x colinc x minpad x padchar x modifiers x 21 objects; ~R and ~:R for every n in -1000..20000 and 6 multiples of every "+
-		"10^k below 10^66; ~@R ~:@R for every n in 1..4999; ~C x 15 characters x 4 forms; ~% ~& ~~ counts 0..3 after 5 prefixes; ~T absolute/relative x colnum "+
-		"x colinc x 5 prefixes; ~* (21 forms) at 4 positions; ~P; ~[ (index -1..4, ~:;, #, v, ~:[, ~@[, nested); ~{ (4 forms x max count x lists 0..4 x nested "+
-		"lists, ~:}); ~( (4 forms, nested); ~? ~@?; all compositions of <= 4 items over a 14-item menu; 16 block wrappers around every 1 and 2 items and around "+
+	return fmt.Sprintf("%d cases: ", n) + ("~D ~B ~O ~X x mincol{-,0,5,12} x padchar{-,'0,'.} x commachar{-,'_} x interval{-,1,3,4} x 4 modifier sets x 15 integers (0 .. +-10^20, " +
+		"both sides of 2^63); ~nR for 6 radixes x mincol x padchar x commachar x interval x modifiers; v/# parameter forms; every printable ASCII character as a " +
+		"quoted parameter; ~A ~S x mincol x colinc x minpad x padchar x modifiers x 22 objects; ~R and ~:R for every n in -1000..20000 and 6 multiples of every " +
+		"10^k below 10^66; ~@R ~:@R for every n in 1..4999; ~C x 15 characters x 4 forms; ~% ~& ~~ counts 0..3 after 5 prefixes; ~T absolute/relative x colnum " +
+		"x colinc x 5 prefixes; ~* (21 forms) at 4 positions; ~P; ~[ (index -1..4, ~:;, #, v, ~:[, ~@[, nested); ~{ (4 forms x max count x lists 0..4 x nested " +
+		"lists, ~:}); ~( (4 forms, nested); ~? ~@?; all compositions of <= 4 items over a 14-item menu; 16 block wrappers around every 1 and 2 items and around " +
 		"every wrapped item (blocks inside blocks)")
 }
